@@ -5,9 +5,11 @@ Rec == ndJsonDeserialize(IOEnv.TRACE)
 VARIABLES l, done
 Init == l \in 1..Len(Rec) /\ done = 0
 Once == done = 0 /\ done' = 1 /\ l' = l
+\* the driver process was killed by the scenario (abort, stack overflow) or made no progress (hang)
+Died(e) == e.k \in {"hang", "abort"}
 Report(tag, why) == PrintT("@@" \o tag \o "|" \o ToString(l) \o "|" \o why)
 C11(e) == LET w == WalkWhy(e) IN
           /\ PrintT("@@FACT|" \o ToString(l) \o "|" \o (IF w = "-" THEN "skipped" ELSE e.sec \o (IF e.incl THEN "+opt" ELSE "") \o "|" \o ToString(Len(e.del) + (IF e.del_q THEN 1 ELSE 0)) \o "|" \o ToString(Len(e.ys))))
           /\ (IF w \in {"", "-"} THEN TRUE ELSE Report("VIOLATION-C11", w))
-NextC11 == Once /\ C11(Rec[l])
+NextC11 == Once /\ (IF Died(Rec[l]) THEN Report("VIOLATION-C11", "the library " \o Rec[l].k \o "s") ELSE C11(Rec[l]))
 ====
